@@ -46,6 +46,9 @@ def impl_eval(case):
         for c in case['fins']:
             if c == 'c':
                 w.close()
+            elif case.get('withstmt'):
+                with w:              # a real `with` statement: __enter__ then __exit__ (also on an already finalised writer)
+                    pass
             else:
                 w.__exit__(None, None, None)
         if path:
@@ -108,9 +111,13 @@ def explore(run, tier):
                     kinds = ['mem', 'real'] if (tier == 'thorough' or (i + nf + b) % 4 == 0) else ['mem']
                     for kind in kinds:
                         cases.append({'cls': 'vbs', 'b': b, 'recs': recs, 'fins': fins, 'file': kind})
+                        if 'e' in fins and kind == 'mem':
+                            cases.append({'cls': 'vbs', 'b': b, 'recs': recs, 'fins': fins, 'file': kind, 'withstmt': True})
                 for i, recs in enumerate(ipm_sets):
                     kinds = ['mem', 'real'] if (tier == 'thorough' or (i + nf + b) % 4 == 1) else ['mem']
                     for kind in kinds:
                         cases.append({'cls': 'ipm', 'b': b, 'recs': recs, 'fins': fins, 'file': kind})
+                        if 'e' in fins and kind == 'mem' and i % 2 == 0:
+                            cases.append({'cls': 'ipm', 'b': b, 'recs': recs, 'fins': fins, 'file': kind, 'withstmt': True})
     run.exhaustive.append(f'all finalisation strings over {{close, exit}} of length 1..{maxfin} x record sets x classes x formats')
     run.correspond(__name__, cases, use_model=run.use_model, chunk=50)
